@@ -575,6 +575,12 @@ class SymInt:
         self.modrange = None
         self.smallcount = None
 
+    def __getattr__(self, name):
+        # an int method the proxy does not model: unsupported, not an error
+        if name.startswith("_"):
+            raise AttributeError(name)
+        raise Undecided("int method %r is not modelled" % (name,))
+
     @property
     def width(self):
         return None if self.kb is None else max(self.kb.bit_length(), 1)
@@ -1073,7 +1079,93 @@ class SymSeq:
 
     __hash__ = None
 
+    def __getattr__(self, name):
+        # a bytes/list method the proxy does not model: unsupported, not an error
+        if name.startswith("__"):
+            raise AttributeError(name)
+        raise Undecided("sequence method %r is not modelled" % (name,))
+
+    def _parts(self):
+        """flattened children of a concatenation: [(expr, unit_arg or None)]"""
+        out = []
+
+        def walk(e):
+            if z3.is_app(e) and e.decl().kind() == z3.Z3_OP_SEQ_CONCAT:
+                for ch in e.children():
+                    walk(ch)
+            elif z3.is_app(e) and e.decl().kind() == z3.Z3_OP_SEQ_UNIT:
+                out.append((e, e.arg(0)))
+            elif z3.is_app(e) and e.decl().kind() == z3.Z3_OP_SEQ_EMPTY:
+                pass
+            else:
+                out.append((e, None))
+        walk(self.e)
+        return out
+
+    def _syntactic(self, i):
+        """Exact syntactic answer for concrete indices/slices that fall into the
+        leading / trailing unit elements of a concatenation (None if not applicable)."""
+        parts = self._parts()
+        if not parts:
+            return None
+        lead = 0
+        while lead < len(parts) and parts[lead][1] is not None:
+            lead += 1
+        trail = 0
+        while trail < len(parts) - lead and parts[len(parts) - 1 - trail][1] is not None:
+            trail += 1
+        allunits = lead == len(parts)
+
+        def build(ps):
+            if not ps:
+                return SymSeq(empty_seq(), self.kind, self.elem_bounds)
+            e = ps[0][0] if len(ps) == 1 else z3.Concat(*[p[0] for p in ps])
+            return SymSeq(e, self.kind, self.elem_bounds)
+        if isinstance(i, slice):
+            if i.step is not None:
+                return None
+            a, b = i.start, i.stop
+            a = 0 if a is None else _concrete(a)
+            if a is None:
+                return None
+            if allunits:
+                bb = len(parts) if b is None else _concrete(b)
+                if bb is None:
+                    return None
+                return build(parts[slice(a, bb)])
+            if a < 0 or a > lead:
+                return None
+            if b is None:
+                return build(parts[a:])
+            bb = _concrete(b)
+            if bb is None:
+                return None
+            if 0 <= bb <= lead:
+                return build(parts[a:bb]) if bb >= a else build([])
+            if bb < 0 and -bb <= trail:
+                return build(parts[a:len(parts) + bb])
+            return None
+        ci = _concrete(i)
+        if ci is None:
+            return None
+        if allunits:
+            if -len(parts) <= ci < len(parts):
+                return ("item", parts[ci][1])
+            return None
+        if 0 <= ci < lead:
+            return ("item", parts[ci][1])
+        if ci < 0 and -ci <= trail:
+            return ("item", parts[len(parts) + ci][1])
+        return None
+
     def __getitem__(self, i):
+        syn = self._syntactic(i)
+        if isinstance(syn, SymSeq):
+            return syn
+        if isinstance(syn, tuple):
+            r = mk(syn[1])
+            self._assume_elem(r)
+            return r
         if isinstance(i, slice):
             if i.step is not None:
                 raise Undecided("slice step on symbolic sequence")
